@@ -364,12 +364,12 @@ fn pkt_line(p: &Piece, rng: &mut Rng) -> String {
 }
 
 fn gen_len(rng: &mut Rng) -> usize {
-    (match rng.below(20) {
-        0 => rng.range(1, 9),
-        1 => 65515,
-        2 => rng.range(60000, 65515),
-        3..=4 => rng.range(1, 20000),
-        5..=12 => rng.range(40, 1500),
+    (match rng.below(40) {
+        0..=1 => rng.range(1, 9),
+        2 => 65515,
+        3 => rng.range(60000, 65515),
+        4..=6 => rng.range(1, 20000),
+        7..=24 => rng.range(40, 1500),
         _ => rng.range(1, 5000),
     }) as usize
 }
@@ -424,6 +424,10 @@ fn run_case(stream: Stream, rng: &mut Rng, out: &mut Out) -> Exec {
             ex.apply(&format!("dgram {} g:{}:{}", show_hdr(&header).replace(',', " "), seed, len), out);
             let hops = rng.range(1, 3) as usize;
             let mut mtus: Vec<u16> = (0..hops).map(|_| gen_mtu(rng)).collect();
+            if len > 8000 && rng.chance(4, 5) {
+                // keep the number of fragments of the big datagrams moderate most of the time
+                mtus = mtus.into_iter().map(|m| m.max(1000)).collect();
+            }
             mtus.sort_by(|a, b| b.cmp(a));
             let mut pieces = fragments_of(header, seed, len, &mtus);
             out.count(&format!("fragments.{}", match pieces.len() { 1 => "1", 2 => "2", 3..=9 => "3-9", 10..=99 => "10-99", _ => ">=100" }));
